@@ -364,8 +364,12 @@ func checkC19(c c19Case) verdict {
 				return bad(true, labels, "request %d: %s %s answered %d; a wrong method must get a failure status (>= 400)", i, h.Method, h.Path, status)
 			}
 		case known != "" && h.Method == "POST" && known == h.Ep && mustRefuse:
-			if status < 400 {
-				return bad(true, labels, "request %d: POST %s with a %s body answered %d %s; a status >= 400 must distinguish the failure (body %s)", i, h.Path, class, status, trunc(string(rb), 120), trunc(string(body), 200))
+			// The status must distinguish success from failure. A syntactically broken body cannot succeed, so it needs a
+			// failure status. A well-formed body with a wrongly typed, out-of-range, blank or missing field could be handled
+			// leniently by a service (that is not what the statement forbids): then a status below 400 must come with the
+			// endpoint's actual result, not with an error description.
+			if status < 400 && (syntacticClass(class) || !successPayload(known, rb)) {
+				return bad(true, labels, "request %d: POST %s with a %s body answered %d %s; the status claims success but the answer is not the endpoint's result (body %s)", i, h.Path, class, status, trunc(string(rb), 120), trunc(string(body), 200))
 			}
 		case known != "" && h.Method == "POST" && known != h.Ep && (class == "empty-body" || class == "truncated-json" || class == "unterminated-string" || class == "raw-invalid-json" || class == "nested-arrays"):
 			if status < 400 {
@@ -389,6 +393,46 @@ func checkC19(c c19Case) verdict {
 	return ok(nt, labels...)
 }
 
+func syntacticClass(class string) bool {
+	switch class {
+	case "empty-body", "truncated-json", "unterminated-string", "raw-invalid-json", "nested-arrays":
+		return true
+	}
+	return false
+}
+
+// successPayload reports whether a response body is the result object of the endpoint: a code of 1..10 digits, a
+// boolean verdict, a configuration, an otpauth URL.
+func successPayload(ep string, rb []byte) bool {
+	var m map[string]any
+	if json.Unmarshal(rb, &m) != nil {
+		return false
+	}
+	switch ep {
+	case "totp-gen", "hotp-gen", "ocra-gen":
+		c, _ := m["code"].(string)
+		if len(c) < 1 || len(c) > 10 {
+			return false
+		}
+		for i := 0; i < len(c); i++ {
+			if c[i] < '0' || c[i] > '9' {
+				return false
+			}
+		}
+		return true
+	case "totp-val", "hotp-val", "ocra-val":
+		_, isBool := m["valid"].(bool)
+		return isBool
+	case "suite":
+		_, isObj := m["config"].(map[string]any)
+		return isObj
+	case "url":
+		u, _ := m["url"].(string)
+		return strings.HasPrefix(u, "otpauth://")
+	}
+	return false
+}
+
 // pathIsPlainUnknown: a path that cannot be an alias of a known route after
 // normalisation by the server (no percent-escapes, no doubled or trailing slashes,
 // no dot segments, lower/upper-case variants are distinct paths).
@@ -407,7 +451,7 @@ func trunc(s string, n int) string {
 }
 
 var c19Main = newPart("C19", "hostile-histories",
-	"rapid: histories of 2..16 requests to the REAL server binary: methods {GET,POST,PUT,DELETE,HEAD,PATCH,OPTIONS} x paths (ten endpoints, /, /docs..., unknown, 4 KiB long, percent-encoded, doubled/trailing slashes, case variants) x bodies from a JSON mutation grammar over each endpoint's well-formed body (empty, truncated at any byte, unterminated string, arbitrary bytes, a dropped field, every field x every JSON type incl. null/bool/array/object/number where a string is expected, numbers at +-2^53, +-2^63, 2^64, 1e400, -1, 1.5, skew/period/counter/timestamp extremes, blank and 1 MiB strings, contradictory suites incl. blank raw_suite, nested arrays, bodies at and over the 1 MiB limit), every 3rd..5th request a well-formed probe whose answer is checked against the reference; invariant over the history: every request gets a complete parseable HTTP response within 5 s (one lone retry with 15 s), broken / wrongly typed / out-of-range / missing-required bodies on the POST endpoints, wrong methods (other than HEAD / OPTIONS) and plain unknown paths get a failure status (>= 400), probes 200 with the RFC value, the process is alive and reports no unrecovered panic; non-trivial = history with at least one non-well-formed request",
+	"rapid: histories of 2..16 requests to the REAL server binary: methods {GET,POST,PUT,DELETE,HEAD,PATCH,OPTIONS} x paths (ten endpoints, /, /docs..., unknown, 4 KiB long, percent-encoded, doubled/trailing slashes, case variants) x bodies from a JSON mutation grammar over each endpoint's well-formed body (empty, truncated at any byte, unterminated string, arbitrary bytes, a dropped field, every field x every JSON type incl. null/bool/array/object/number where a string is expected, numbers at +-2^53, +-2^63, 2^64, 1e400, -1, 1.5, skew/period/counter/timestamp extremes, blank and 1 MiB strings, contradictory suites incl. blank raw_suite, nested arrays, bodies at and over the 1 MiB limit), every 3rd..5th request a well-formed probe whose answer is checked against the reference; invariant over the history: every request gets a complete parseable HTTP response within 5 s (one lone retry with 15 s), syntactically broken bodies on the POST endpoints, wrong methods (other than HEAD / OPTIONS) and plain unknown paths get a failure status (>= 400); wrongly typed / out-of-range / blank / missing-required fields get a failure status or, if the service handles them, the endpoint's actual result (never an error description under a success status), probes 200 with the RFC value, the process is alive and reports no unrecovered panic; non-trivial = history with at least one non-well-formed request",
 	checkC19)
 
 var jsonValues = []string{"null", "true", "false", "0", "1", "-1", "1.5", "1e3", "1e400", "-1e400", "9007199254740992", "-9007199254740993", "9223372036854775807", "9223372036854775808", "-9223372036854775808", "-9223372036854775809",
